@@ -35,6 +35,17 @@ func opLabels(n *shape.Node) []string {
 // that is enlarged per axis by the offset is exact for it only in its own frame, not after a
 // rotation. Used only to classify findings.
 func underestimating(n *shape.Node) bool {
+	// an inward offset f+d of an exact field underestimates the distance to the eroded shape outside it
+	// (near a corner of a box by d*(sqrt(3)-1)): the same class
+	inward := false
+	n.Walk(func(x *shape.Node) {
+		if (x.Op == "offset2" || x.Op == "offset3") && len(x.P) > 0 && x.P[0] < 0 {
+			inward = true
+		}
+	})
+	if inward {
+		return true
+	}
 	return n.Has("nuscale2", "nuscale3", "twist", "scaleext", "scaletwist", "loft", "screw", "revolvetheta",
 		"extrude", "extround", "diff2", "diff3", "isect2", "isect3", "cut2", "cut3", "slice2",
 		// GearRack2D evaluates max(tooth profile, |x| - length): a max-composition inside a leaf
